@@ -68,7 +68,10 @@ def stream_case(draw, tier="quick"):
     fes = draw(st.lists(st.sampled_from(FRONTENDS), min_size=2, max_size=4, unique=True))
     if axis_streams:
         fes = draw(st.lists(st.sampled_from(AXIS_STREAM_FRONTENDS), min_size=2, max_size=4, unique=True))
-    return {"table": tbl, "contexts": ctxs, "style": draw(st.sampled_from(["iso", "datetime"])), "frontends": fes,
+    extra = {}
+    if any(v is None for ax in tbl["axes"].values() for v in ax) and draw(st.booleans()):
+        extra["axes_masked"] = draw(st.sampled_from([0.0, 5.0, -9999.0]))
+    return {**extra, "table": tbl, "contexts": ctxs, "style": draw(st.sampled_from(["iso", "datetime"])), "frontends": fes,
             "qc_tinp": draw(st.sampled_from(["ndarray", "ndarray", "list_datetime", "list_timestamp", "series", "dtindex"]))}
 
 
@@ -156,6 +159,11 @@ def run_frontend(fe, case):
     if "lat" in tbl["axes"]:
         axes["lat"] = sg.np_col(tbl["axes"]["lat"])
         axes["lon"] = sg.np_col(tbl["axes"]["lon"])
+    if case.get("axes_masked") is not None:
+        # depth / position handed over as masked arrays (what netCDF readers return), a finite number under each mask
+        for k in list(axes):
+            m = np.isnan(axes[k])
+            axes[k] = np.ma.MaskedArray(np.where(m, float(case["axes_masked"]), axes[k]), mask=m)
     tarr = sg.np_time(tbl["t"]) if tbl["t"] is not None else None
     with warnings.catch_warnings():
         warnings.simplefilter("ignore")
@@ -295,6 +303,8 @@ def check_stream(case, rec):
         labels.append(f"qc_tinp={case.get('qc_tinp', 'ndarray')}")
     if any(sid in case["table"]["axes"] for c in case["contexts"] for sid in c["streams"]):
         labels.append("axis_column_tested")
+    if case.get("axes_masked") is not None:
+        labels.append("masked_axis_arrays")
     if not info["has_time"]:
         labels.append("no_time_column")
     elif any(float(v) != int(v) for v in case["table"]["t"]):
